@@ -108,6 +108,58 @@ def qd_queue(ctx):
     return out
 
 
+def qd_single_store(ctx):
+    """The jobs of a queue live in one place.  Every decision "is there anything to run?" (`queue.len() == 0` in sync / try_sync /
+    sync_no_panic / drain / reschedule_queue) looks at JobQueueCore.queue; a second field that can hold a job is invisible to those tests
+    unless each of them looks at it too."""
+    F = ctx.F
+    out = []
+    R = 'QD-queue'
+    adt = F.adts.get(JQC)
+    if not adt:
+        return [undecided(R, 'single-job-store', 'JobQueueCore not found')]
+    fields = [f_['name'] for v in adt['variants'] for f_ in v['fields'] if 'ScheduledJob' in f_['ty']]
+    extra = [f_ for f_ in fields if f_ != 'queue']
+    if 'queue' not in fields:
+        return [undecided(R, 'single-job-store', 'JobQueueCore.queue no longer holds the jobs')]
+    if not extra:
+        out.append(ok(R, 'single-job-store', 'JobQueueCore.queue is the only field that can hold a job'))
+    blind = []
+    for fn in (F.crate_fns() if extra else []):
+        u = FieldUse(fn, JQC)
+        tests = [m for (bb, m, t) in u.calls.get('queue', []) if m in ('len', 'is_empty')]
+        if not tests:
+            continue
+        for x in extra:
+            if not u.reads.get(x) and not u.calls.get(x):
+                blind.append((fn, x))
+    for fn, x in blind:
+        out.append(bad(R, '%s|single-job-store' % short(fn.root or fn.name), 'jobs can also be held in JobQueueCore.%s, and %s decides whether the queue is empty by looking at `queue` alone: an operation '
+                       'parked in `%s` is not seen, so a later operation is run ahead of (or in the middle of) it' % (x, short(fn.name), x), fn=fn.name))
+    if not blind and extra:
+        out.append(ok(R, 'single-job-store', 'every emptiness test of `queue` also looks at %s' % ', '.join(extra)))
+    # the sibling stores: ready queues live in `schedule` only (next_to_run looks nowhere else), pool threads in `threads` only (the bound
+    # counts nothing else), produced outputs in `pending` only (the consumer pops nothing else)
+    for adt_name, frag, primary, what in (('desync::SchedulerCore', 'desync::JobQueue', 'schedule', 'ready queues'),
+                                          ('desync::SchedulerCore', 'desync::SchedulerThread', 'threads', 'pool threads'),
+                                          ('desync::PipeStreamCore', 'Item', 'pending', 'produced outputs')):
+        a2 = F.adts.get(adt_name)
+        key = '%s.%s|single-store' % (adt_name.split('::')[-1], primary)
+        if not a2:
+            out.append(undecided(R, key, '%s not found' % adt_name))
+            continue
+        import re as _re
+        holders = [f_['name'] for v in a2['variants'] for f_ in v['fields'] if _re.search(r'\b%s\b' % _re.escape(frag.split('::')[-1]), f_['ty'])]
+        others = [h for h in holders if h != primary]
+        if primary not in holders:
+            out.append(undecided(R, key, '%s.%s no longer holds the %s' % (adt_name, primary, what)))
+        elif others:
+            out.append(bad(R, key, '%s can also be held in %s.%s: the code that serves them (and the tests and bounds that count them) looks at `%s` only' % (what, adt_name.split('::')[-1], others[0], primary)))
+        else:
+            out.append(ok(R, key, '`%s` is the only field that holds %s' % (primary, what)))
+    return out
+
+
 def qd_pending(ctx):
     """PipeStreamCore.pending: outputs are appended by the producer only, taken from the front by the consumer only."""
     return _discipline(ctx, 'QD-pending', PSC, 'pending', {
